@@ -10,7 +10,7 @@ from vlib import core  # noqa: E402
 
 
 def checks():
-    from vlib import fam_import, fam_chroot, fam_frontend, fam_compile, fam_seq, fam_eval, fam_ints, fam_datamodel, fam_relmod, fam_db, fam_det, fam_cli, fam_codec
+    from vlib import fam_import, fam_chroot, fam_frontend, fam_compile, fam_seq, fam_eval, fam_ints, fam_datamodel, fam_relmod, fam_db, fam_det, fam_cli, fam_codec, fam_interop
     table = {
         "C05": fam_import.check_c05,
         "C06": fam_import.check_c06,
@@ -29,6 +29,7 @@ def checks():
         "C19": fam_det.check_c19,
         "C07": fam_det.check_c07,
         "C09": fam_codec.check_c09,
+        "C11": fam_interop.check_c11,
         "C20": fam_cli.check_c20,
     }
     for mod, names in OPTIONAL:
